@@ -60,6 +60,16 @@ fn main() {
             let code = props::replay(&c, &args[3]);
             std::process::exit(code);
         }
+        "stress-times" => {
+            engine::install_quiet_panic_hook();
+            for tier in [Tier::Quick, Tier::Thorough] {
+                for (name, text) in kiki_verif::props::total::stress_inputs(tier) {
+                    let t = std::time::Instant::now();
+                    let o = kiki_verif::outcome::generate(&text);
+                    println!("{:?} {:>8.3}s {:>8} bytes  {}  -> {}", tier, t.elapsed().as_secs_f64(), text.len(), name, o.brief().chars().take(60).collect::<String>());
+                }
+            }
+        }
         "worker" => {
             let code = props::worker(&args[2..]);
             std::process::exit(code);
